@@ -26,6 +26,21 @@ ASSUMPTIONS = [
 def _case(draw, tier):
     g = draw(gen.int_train_lists(2, 2, related=draw(st.sampled_from([True, True, False])),
                                  **gen.sizes(tier)))
+    if draw(st.integers(0, 9)) == 0 and not g.get("fine") and g["n"] >= 8:
+        # sparse trains far apart and a bound between half and the whole recording:
+        # the only place where "a missing neighbour counts as the recording length"
+        # and the bound interact
+        n = g["n"]
+        a = sorted(set(draw(st.lists(st.integers(0, n // 4), min_size=1, max_size=2))))
+        b = sorted(set(draw(st.lists(st.integers(n - n // 4, n), min_size=1, max_size=2))))
+        g = dict(g, trains=[a, b][::draw(st.sampled_from([1, -1]))])
+        c = gen.to_times(g)
+        c["mrts"] = draw(st.sampled_from([None, 0.0, 4.0 * n / g["q"]]))
+        c["mt1"] = draw(st.integers(n + 1, 2 * n - 1)) / (2.0 * g["q"])       # in (T/2, T)
+        c["mt2"] = draw(st.sampled_from([n, n + 1, 2 * n])) / float(g["q"])   # >= T
+        c["compiled"] = draw(st.booleans())
+        c["interval"] = None
+        return c
     c = gen.to_times(g)
     c["mrts"] = draw(gen.mrts_for(g, allow_auto=True))
     m1 = draw(gen.maxtau_for(g, positive_only=True, bite=True))
